@@ -315,7 +315,7 @@ def make_models():
 
     def m_value_as_str(ex, st, args, dest_ty, fname):
         v = ex.deref(args[0], st)
-        if v[1] == "String":
+        if v[1].split("::")[-1] == "String":
             return some(("refval", v[2][0]))
         return NONE
 
